@@ -1004,3 +1004,65 @@ Example end_to_end_example :
   known_class d pretty_cfg = false /\ known_class d pretty_hex_cfg = true /\
   render (dm_val d) pretty_cfg = render (std_val d) pretty_cfg.
 Proof. vm_compute. repeat split. Qed.
+
+(* ================================================================== 11. the impl's where clause *)
+
+Lemma enum_bounds_from_In : forall bss u0 u bs b,
+  nth_error bss u = Some bs -> In b bs -> In ((u0 + u)%nat, b) (enum_bounds_from u0 bss).
+Proof.
+  induction bss as [|bs0 rest IH]; intros u0 [|u] bs b H Hb; try discriminate H; cbn in H |- *; apply in_or_app.
+  - inversion H; subst. left. rewrite Nat.add_0_r. now apply (in_map (fun b => (u0, b))).
+  - right. replace (u0 + S u)%nat with (S u0 + u)%nat by lia. now apply (IH (S u0) u bs).
+Qed.
+
+(** every inferred bound of every struct / variant is a predicate of the impl - whatever where clause the
+    user wrote (none, or any number of predicates) *)
+Lemma where_keeps_inferred n bss u bs b :
+  nth_error bss u = Some bs -> In b bs -> In (WField (u, b)) (impl_where_clause n (enum_bounds bss)).
+Proof.
+  intros H Hb. unfold impl_where_clause. apply in_or_app. right. apply in_map.
+  exact (enum_bounds_from_In bss 0 u bs b H Hb).
+Qed.
+
+(** the user's predicates come first, in their order, and nothing else precedes the inferred ones *)
+Lemma where_keeps_user n inferred :
+  firstn n (impl_where_clause n inferred) = map WUser (seq 0 n) /\
+  skipn n (impl_where_clause n inferred) = map WField inferred.
+Proof.
+  unfold impl_where_clause.
+  assert (L : length (map WUser (seq 0 n)) = n) by now rewrite map_length, seq_length.
+  split.
+  - rewrite firstn_app, L, Nat.sub_diag. cbn. rewrite app_nil_r.
+    rewrite <- L at 1. apply firstn_all.
+  - rewrite skipn_app, L, Nat.sub_diag. cbn. rewrite <- L at 1. now rewrite skipn_all.
+Qed.
+
+Lemma nth_error_combine_seq {A} : forall (es : list A) s u e,
+  nth_error es u = Some e -> nth_error (combine (seq s (length es)) es) u = Some ((s + u)%nat, e).
+Proof.
+  induction es as [|e0 es IH]; intros s [|u] e H; try discriminate H; cbn in *.
+  - inversion H. now rewrite Nat.add_0_r.
+  - rewrite (IH (S s) u e H). f_equal. f_equal. lia.
+Qed.
+
+(** combined with generate_bounds: a plainly printed field with a generic type is bounded by Debug in the
+    emitted impl, with or without a user where clause *)
+Lemma printed_generic_field_bounded n generic refs es u e j :
+  nth_error es u = Some e ->
+  nth_error (field_attrs (e_fields e)) j = Some ANone -> generic u j = true ->
+  In (WField (u, (j, TrDebug)))
+     (impl_where_clause n (enum_bounds (map (fun ue => generate_bounds (generic (fst ue)) (refs (fst ue)) (snd ue))
+                                            (combine (seq 0 (length es)) es)))).
+Proof.
+  intros He Ha G. eapply where_keeps_inferred.
+  - rewrite nth_error_map.
+    assert (Hc : nth_error (combine (seq 0 (length es)) es) u = Some (u, e))
+      by exact (nth_error_combine_seq es 0 u e He).
+    rewrite Hc. cbn. reflexivity.
+  - cbn [fst snd]. apply generate_bounds_exact. split; [exact G|]. left. now split.
+Qed.
+
+Example impl_where_example :
+  impl_where_clause 2 (enum_bounds [[(0, TrDebug)]; []; [(1, TrDebug); (0, TrDisplay)]])%nat =
+  [WUser 0; WUser 1; WField (0, (0, TrDebug)); WField (2, (1, TrDebug)); WField (2, (0, TrDisplay))]%nat.
+Proof. reflexivity. Qed.
